@@ -1040,6 +1040,15 @@ func callBuiltin(caller *frame, callpos token.Pos, fn *ssa.Builtin, args []value
 		// append([]T, ...[]T) []T
 		old := args[0].([]value)
 		res := append(old, args[1].([]value)...)
+		aelem := fn.Type().(*types.Signature).Params().At(0).Type().Underlying().(*types.Slice).Elem()
+		switch aelem.Underlying().(type) {
+		case *types.Struct, *types.Array:
+			// aggregates have value semantics: the appended elements are copies, not
+			// aliases of the source elements
+			for k := len(old); k < len(res); k++ {
+				res[k] = load(aelem, &res[k])
+			}
+		}
 		if cap(res) != cap(old) {
 			// fresh backing array: zero-fill the spare capacity like the Go runtime does
 			elem := fn.Type().(*types.Signature).Params().At(0).Type().Underlying().(*types.Slice).Elem()
@@ -1062,7 +1071,17 @@ func callBuiltin(caller *frame, callpos token.Pos, fn *ssa.Builtin, args []value
 			params := fn.Type().(*types.Signature).Params()
 			src = conv(params.At(0).Type(), params.At(1).Type(), src)
 		}
-		return copy(args[0].([]value), src.([]value))
+		dst := args[0].([]value)
+		n := copy(dst, src.([]value))
+		if st, ok := fn.Type().(*types.Signature).Params().At(0).Type().Underlying().(*types.Slice); ok {
+			switch st.Elem().Underlying().(type) {
+			case *types.Struct, *types.Array:
+				for k := 0; k < n; k++ {
+					dst[k] = load(st.Elem(), &dst[k])
+				}
+			}
+		}
+		return n
 
 	case "close": // close(chan T)
 		caller.i.chanClose(args[0].(*gchan))
@@ -1663,9 +1682,67 @@ func (it *snapIter) order(fr *frame) {
 				rest = append(rest[:c], rest[c+1:]...)
 			}
 			it.keys = append(out, rest...)
-		} else if fr.i.s.choose(2) == 1 {
-			for a, b := 0, n-1; a < b; a, b = a+1, b-1 {
-				keys[a], keys[b] = keys[b], keys[a]
+		} else {
+			// larger maps: a family of n+3 orders instead of n! (sorted, reversed, evens
+			// before odds, odds before evens, every rotation)
+			// ... plus stride permutations i -> (i*k) mod n for the k coprime to n, which look
+			// "shuffled" to pattern-detecting code such as pdqsort
+			var strides []int
+			for k := 2; k < n && len(strides) < 6; k++ {
+				g, h := k, n
+				for h != 0 {
+					g, h = h, g%h
+				}
+				if g == 1 {
+					strides = append(strides, k)
+				}
+			}
+			const shuffles = 4 // fixed pseudo-random shuffles (deterministic seeds)
+			c := fr.i.s.choose(n + 3 + len(strides) + shuffles)
+			if c >= n+3+len(strides) {
+				seed := uint32(c-n-3-len(strides))*2654435761 + uint32(n)*40503 + 12345
+				perm := append([]value{}, keys...)
+				for i2 := n - 1; i2 > 0; i2-- {
+					seed ^= seed << 13
+					seed ^= seed >> 17
+					seed ^= seed << 5
+					j2 := int(seed % uint32(i2+1))
+					perm[i2], perm[j2] = perm[j2], perm[i2]
+				}
+				it.keys = perm
+				return
+			}
+			if c >= n+3 {
+				k := strides[c-n-3]
+				perm := make([]value, n)
+				for i2 := 0; i2 < n; i2++ {
+					perm[i2] = keys[(i2*k)%n]
+				}
+				it.keys = perm
+				return
+			}
+			switch {
+			case c == 1:
+				for a, b := 0, n-1; a < b; a, b = a+1, b-1 {
+					keys[a], keys[b] = keys[b], keys[a]
+				}
+			case c == 2 || c == 3:
+				var ev, od []value
+				for k, v := range keys {
+					if k%2 == 0 {
+						ev = append(ev, v)
+					} else {
+						od = append(od, v)
+					}
+				}
+				if c == 2 {
+					it.keys = append(ev, od...)
+				} else {
+					it.keys = append(od, ev...)
+				}
+			case c >= 4:
+				r := c - 3
+				it.keys = append(append([]value{}, keys[r:]...), keys[:r]...)
 			}
 		}
 	}
